@@ -2,10 +2,10 @@
 # tools/confirm_seed.sh <PROP> <mK> : independently confirm a seeded change produced by a sub-agent
 # in the scratch worktree /tmp/wt/<PROP>: builds, whole suite passes with it, demo fails with it, demo passes without it.
 id="$1"; m="$2"
-wt=/tmp/wt/$id; out=/tmp/wt/out/$id/$m
-export GOFLAGS=-mod=mod GOPROXY=off GOSUMDB=off GOTOOLCHAIN=local TMPDIR=/tmp/wt/out/$id/tmpc_$m
+base=${SEEDBASE:-/tmp/wt}; wt=$base/$id; out=$base/out/$id/$m
+export GOFLAGS=-mod=mod GOPROXY=off GOSUMDB=off GOTOOLCHAIN=local TMPDIR=${SEEDBASE:-/tmp/wt}/out/$id/tmpc_$m
 mkdir -p $TMPDIR
-res=/tmp/wt/confirm/$id-$m.json; mkdir -p /tmp/wt/confirm
+res=${SEEDBASE:-/tmp/wt}/confirm/$id-$m.json; mkdir -p ${SEEDBASE:-/tmp/wt}/confirm
 cd $wt || exit 9
 git checkout -q -- . ; git clean -fdq tests/ >/dev/null 2>&1
 demo=$(ls $out/*_test.go | head -1)
